@@ -447,6 +447,9 @@ func c18Exec(j c18Job) c18Res {
 	}
 	// probe: the node keeps serving with unchanged behaviour
 	probe := harness.Send(h.W.Users[2], h.W.Users[0].Addr, harness.Coin("OLT", harness.Amt("1")), "c18-probe")
+	// (the probe pays 1000 times the genesis minimum price: a history may have RAISED the minimum fee through
+	// governance - then a probe at the old minimum is refused by the unchanged tree too, whatever the input was)
+	probe.Fee.Price.Value = harness.Amt("1000000000000")
 	res, err := x.Block(harness.BlockSpec{Txs: []*harness.TxSpec{probe}})
 	switch {
 	case err != nil:
